@@ -4,7 +4,8 @@ from __future__ import annotations
 import numpy as np
 
 from vpkit import SubCheck, fail, ok
-from vpkit.training import diverges, gen_state_equal, ill_conditioned, make_program, program_cfgs, reference_loop, tree_close
+from vpkit.training import (diverges, gen_state_equal, ill_conditioned, make_program, program_cfgs, quiet, reference_loop, tree_close,
+                            verbosity)
 
 PROPERTY = "C07"
 LEVEL = "exploration"
@@ -98,8 +99,12 @@ def run_case(case):
 
         kw["obs_batch_sharding"] = jax.sharding.SingleDeviceSharding(jax.devices()[0])
         labels.append("python-loop(obs sharding)")
-    out = jinns.solve(n_iter=n, init_params=prog["params"], data=prog["data"], loss=prog["loss"], optimizer=prog["optimizer"],
-                      tracked_params=prog["tracked"], param_data=prog["param_data"], obs_data=prog["obs_data"], verbose=False, **kw)
+    kw.update(verbosity(cfg))
+    if kw["verbose"]:
+        labels.append("verbose")
+    with quiet():
+        out = jinns.solve(n_iter=n, init_params=prog["params"], data=prog["data"], loss=prog["loss"], optimizer=prog["optimizer"],
+                          tracked_params=prog["tracked"], param_data=prog["param_data"], obs_data=prog["obs_data"], **kw)
     v = _compare(out, ref, prog, n, labels)
     if v is not None:
         if v.bucket not in ("returned-generator-state", "loss-history-shape", "untracked-parameter-stored") and \
